@@ -1,3 +1,618 @@
-/- Property theorems for C03 — to be filled in. -/
+/-
+  C03 — a stage never runs before its dependencies allow it (pure half).
+
+  Theorems about `Stab.Ready.evaluate`, the executable model of
+  `stabilize.dag.readiness.evaluate_readiness` that the driver runs (token `ready`) and that the
+  correspondence check compares with the real function on real `StageExecution` objects.
+  Every statement is for ALL inputs: any number of upstreams, any statuses, any refs (duplicates
+  allowed), any integer threshold, any activation list.  The engine-level half (claims happen only
+  in states where `evaluate` says READY, on every schedule) cites these.
+
+  Vocabulary: an upstream is *continuable* when its status ∈ CONTINUABLE_STATUSES
+  (SUCCEEDED, FAILED_CONTINUE, SKIPPED, REDIRECT) and *halted* when ∈ HALT_STATUSES
+  (TERMINAL, CANCELED, STOPPED).
+-/
+import Stab.Model.Ready
+import Stab.Lemmas.C03
+
 namespace Stab.Props.C03
+open Stab Stab.Ready Stab.Lemmas.C03
+
+/-- number of continuable upstreams -/
+def nCont (ups : List Up) : Nat := (ups.filter (·.status.isContinuable)).length
+/-- number of upstreams that are not halted (continuable or still able to complete) -/
+def nLive (ups : List Up) : Nat := (ups.filter (fun u => !u.status.isHalt)).length
+
+/-! ## READY, per join type, as an equivalence -/
+
+/-- bypass (the `_jump_bypass` flag, set only by a jump on its target) makes every input READY -/
+theorem ready_of_bypass (i : In) (h : i.bypass = true) : evaluate i = { phase := .ready } := by
+  simp [evaluate, h]
+
+/-- a stage without upstreams is READY -/
+theorem ready_of_no_upstreams (i : In) (h : i.ups = []) : evaluate i = { phase := .ready } := by
+  simp [evaluate, h]
+
+/-- **AND join**: READY ⇔ every upstream is continuable. -/
+theorem ready_iff_and (i : In) (hb : i.bypass = false) (hj : i.join = .and) :
+    (evaluate i).phase = .ready ↔ ∀ u ∈ i.ups, u.status.isContinuable = true := by
+  unfold evaluate
+  by_cases he : i.ups.isEmpty = true
+  · simp only [hb, he, Bool.false_eq_true, ↓reduceIte, true_iff]
+    rw [List.isEmpty_iff] at he; simp [he]
+  · simp only [hb, he, hj, Bool.false_eq_true, ↓reduceIte]; exact and_ready_iff _
+
+/-- **OR join**: without `_activated_branches` it is the AND condition; with it, READY ⇔ every
+    upstream whose ref is listed is continuable (in particular READY when none is listed). -/
+theorem ready_iff_or (i : In) (hb : i.bypass = false) (hj : i.join = .or) :
+    (evaluate i).phase = .ready ↔
+      match i.activated with
+      | none => ∀ u ∈ i.ups, u.status.isContinuable = true
+      | some act => ∀ u ∈ i.ups, u.ref ∈ act → u.status.isContinuable = true := by
+  unfold evaluate
+  by_cases he : i.ups.isEmpty = true
+  · simp only [hb, he, Bool.false_eq_true, ↓reduceIte, true_iff]
+    rw [List.isEmpty_iff] at he; cases i.activated <;> simp [he]
+  · simp only [hb, he, hj, Bool.false_eq_true, ↓reduceIte]
+    unfold orJoin
+    cases i.activated with
+    | none => exact and_ready_iff _
+    | some act =>
+      simp only
+      by_cases hr : (i.ups.filter (fun u => act.contains u.ref)).isEmpty = true
+      · simp only [hr, ↓reduceIte, true_iff]
+        simp only [List.isEmpty_iff, List.filter_eq_nil_iff, List.contains_eq_mem,
+          decide_eq_true_eq] at hr
+        intro u hu hm; exact absurd hm (hr u hu)
+      · simp only [hr, Bool.false_eq_true, ↓reduceIte]
+        rw [and_ready_iff]
+        simp [List.mem_filter]
+
+/-- **MULTI_MERGE**: READY ⇔ no upstreams or some upstream is continuable. -/
+theorem ready_iff_multi_merge (i : In) (hb : i.bypass = false) (hj : i.join = .multiMerge) :
+    (evaluate i).phase = .ready ↔ i.ups = [] ∨ ∃ u ∈ i.ups, u.status.isContinuable = true := by
+  unfold evaluate
+  by_cases he : i.ups.isEmpty = true
+  · simp only [hb, he, Bool.false_eq_true, ↓reduceIte, true_iff]
+    rw [List.isEmpty_iff] at he; exact Or.inl he
+  · simp only [hb, he, hj, Bool.false_eq_true, ↓reduceIte]
+    rw [mm_ready_iff]
+    have : i.ups ≠ [] := by simpa using he
+    simp [this]
+
+/-- **DISCRIMINATOR**: READY ⇔ no upstreams, or it has not fired and some upstream is continuable. -/
+theorem ready_iff_discriminator (i : In) (hb : i.bypass = false) (hj : i.join = .discriminator) :
+    (evaluate i).phase = .ready ↔
+      i.ups = [] ∨ (i.joinFired = false ∧ ∃ u ∈ i.ups, u.status.isContinuable = true) := by
+  unfold evaluate
+  by_cases he : i.ups.isEmpty = true
+  · simp only [hb, he, Bool.false_eq_true, ↓reduceIte, true_iff]
+    rw [List.isEmpty_iff] at he; exact Or.inl he
+  · simp only [hb, he, hj, Bool.false_eq_true, ↓reduceIte]
+    have hne : i.ups ≠ [] := by simpa using he
+    unfold discriminator
+    cases hf : i.joinFired
+    · simp only [Bool.false_eq_true, ↓reduceIte]; rw [mm_ready_iff]; simp [hne]
+    · simp [hne]
+
+/-- **N_OF_M** with a positive threshold: READY ⇔ no upstreams, or it has not fired and at least
+    `threshold` upstreams are continuable. -/
+theorem ready_iff_n_of_m (i : In) (hb : i.bypass = false) (hj : i.join = .nOfM)
+    (ht : 0 < i.threshold) :
+    (evaluate i).phase = .ready ↔
+      i.ups = [] ∨ (i.joinFired = false ∧ i.threshold ≤ (nCont i.ups : Int)) := by
+  unfold evaluate
+  by_cases he : i.ups.isEmpty = true
+  · simp only [hb, he, Bool.false_eq_true, ↓reduceIte, true_iff]
+    rw [List.isEmpty_iff] at he; exact Or.inl he
+  · simp only [hb, he, hj, Bool.false_eq_true, ↓reduceIte]
+    have hne : i.ups ≠ [] := by simpa using he
+    have ht' : ¬ i.threshold ≤ 0 := by omega
+    unfold nOfM nCont
+    simp only [ht', ↓reduceIte]
+    cases hf : i.joinFired
+    · simp only [Bool.false_eq_true, ↓reduceIte, ge_iff_le]
+      split
+      · simp_all
+      · split
+        · simp_all
+        · split <;> simp_all
+    · simp [hne]
+
+/-- `join_threshold <= 0` on an N_OF_M stage is evaluated exactly as an AND join -/
+theorem threshold_nonpos_is_and (i : In) (hj : i.join = .nOfM) (ht : i.threshold ≤ 0) :
+    evaluate i = evaluate { i with join := .and } := by
+  simp [evaluate, hj, nOfM, ht]
+
+/-- an OR join without `_activated_branches` is evaluated exactly as an AND join -/
+theorem or_without_info_is_and (i : In) (hj : i.join = .or) (ha : i.activated = none) :
+    evaluate i = evaluate { i with join := .and } := by
+  simp [evaluate, hj, orJoin, ha]
+
+/-! ## the property as stated: READY implies the join condition -/
+
+/-- the join condition of the property statement, per join type -/
+def JoinMet (i : In) : Prop :=
+  i.bypass = true ∨ i.ups = [] ∨
+  ((i.join = .and ∨ (i.join = .nOfM ∧ i.threshold ≤ 0) ∨ (i.join = .or ∧ i.activated = none))
+      ∧ ∀ u ∈ i.ups, u.status.isContinuable = true) ∨
+  (i.join = .nOfM ∧ 0 < i.threshold ∧ i.joinFired = false ∧ i.threshold ≤ (nCont i.ups : Int)) ∨
+  (i.join = .discriminator ∧ i.joinFired = false ∧ ∃ u ∈ i.ups, u.status.isContinuable = true) ∨
+  (i.join = .or ∧ ∃ act, i.activated = some act ∧
+      ∀ u ∈ i.ups, u.ref ∈ act → u.status.isContinuable = true) ∨
+  (i.join = .multiMerge ∧ ∃ u ∈ i.ups, u.status.isContinuable = true)
+
+/-- **`ready_sound`** (and complete): `evaluate` answers READY exactly when the join condition
+    over the upstream statuses is met. -/
+theorem ready_iff_join_met (i : In) : (evaluate i).phase = .ready ↔ JoinMet i := by
+  unfold JoinMet
+  cases hb : i.bypass
+  case true => simp [ready_of_bypass i hb]
+  case false =>
+    by_cases he : i.ups = []
+    · simp [ready_of_no_upstreams i he, he]
+    · cases hj : i.join
+      case and => rw [ready_iff_and i hb hj]; simp [he]
+      case or =>
+        rw [ready_iff_or i hb hj]
+        cases ha : i.activated <;> simp [he]
+      case multiMerge => rw [ready_iff_multi_merge i hb hj]; simp [he]
+      case discriminator => rw [ready_iff_discriminator i hb hj]; simp [he]
+      case nOfM =>
+        by_cases ht : 0 < i.threshold
+        · rw [ready_iff_n_of_m i hb hj ht]
+          have : ¬ i.threshold ≤ 0 := by omega
+          simp [he, ht, this]
+        · have ht' : i.threshold ≤ 0 := by omega
+          have hand := ready_iff_and { i with join := .and } hb rfl
+          rw [threshold_nonpos_is_and i hj ht', hand]
+          simp [he, ht, ht']
+
+theorem ready_sound (i : In) (h : (evaluate i).phase = .ready) : JoinMet i :=
+  (ready_iff_join_met i).mp h
+
+/-- An AND-join stage with a halted upstream is never READY unless the jump bypass is set;
+    it is SKIP, and the halted upstreams are exactly the reported `failed` ids. -/
+theorem halted_upstream_blocks_and (i : In) (hb : i.bypass = false) (hj : i.join = .and)
+    (u : Up) (hu : u ∈ i.ups) (hh : u.status.isHalt = true) :
+    (evaluate i).phase = .skip ∧ u.ref ∈ (evaluate i).failed := by
+  have hne : i.ups.isEmpty = false := by cases hl : i.ups <;> simp_all
+  simp only [evaluate, hb, hne, hj, Bool.false_eq_true, ↓reduceIte]
+  refine ⟨(and_skip_iff _).mpr ⟨u, hu, hh⟩, ?_⟩
+  rw [and_failed]
+  exact List.mem_map.mpr ⟨u, List.mem_filter.mpr ⟨hu, hh⟩, rfl⟩
+
+/-- A fired DISCRIMINATOR / positive-threshold N_OF_M join with upstreams is never READY again
+    (NOT_READY until a jump re-arms it by clearing `_join_fired`). -/
+theorem fired_blocks (i : In) (hb : i.bypass = false) (hne : i.ups ≠ [])
+    (hj : i.join = .discriminator ∨ (i.join = .nOfM ∧ 0 < i.threshold)) (hf : i.joinFired = true) :
+    evaluate i = { phase := .notReady } := by
+  have he : i.ups.isEmpty = false := by simpa using hne
+  rcases hj with hj | ⟨hj, ht⟩
+  · simp [evaluate, hb, he, hj, discriminator, hf]
+  · have : ¬ i.threshold ≤ 0 := by omega
+    simp [evaluate, hb, he, hj, nOfM, hf, this]
+
+/-! ## SKIP, per join type -/
+
+theorem skip_iff_and (i : In) (hb : i.bypass = false) (hj : i.join = .and) :
+    (evaluate i).phase = .skip ↔ ∃ u ∈ i.ups, u.status.isHalt = true := by
+  unfold evaluate
+  by_cases he : i.ups.isEmpty = true
+  · simp only [hb, he, Bool.false_eq_true, ↓reduceIte]
+    rw [List.isEmpty_iff] at he; simp [he]
+  · simp only [hb, he, hj, Bool.false_eq_true, ↓reduceIte]; exact and_skip_iff _
+
+/-- OR join: SKIP ⇔ some upstream that counts (all of them without activation info, the listed
+    ones with it) is halted -/
+theorem skip_iff_or (i : In) (hb : i.bypass = false) (hj : i.join = .or) :
+    (evaluate i).phase = .skip ↔
+      match i.activated with
+      | none => ∃ u ∈ i.ups, u.status.isHalt = true
+      | some act => ∃ u ∈ i.ups, u.ref ∈ act ∧ u.status.isHalt = true := by
+  unfold evaluate
+  by_cases he : i.ups.isEmpty = true
+  · simp only [hb, he, Bool.false_eq_true, ↓reduceIte]
+    rw [List.isEmpty_iff] at he; cases i.activated <;> simp [he]
+  · simp only [hb, he, hj, Bool.false_eq_true, ↓reduceIte]
+    unfold orJoin
+    cases i.activated with
+    | none => exact and_skip_iff _
+    | some act =>
+      simp only
+      by_cases hr : (i.ups.filter (fun u => act.contains u.ref)).isEmpty = true
+      · simp only [hr, ↓reduceIte]
+        simp only [List.isEmpty_iff, List.filter_eq_nil_iff, List.contains_eq_mem,
+          decide_eq_true_eq] at hr
+        constructor
+        · intro h; cases h
+        · rintro ⟨u, hu, hm, _⟩; exact absurd hm (hr u hu)
+      · simp only [hr, Bool.false_eq_true, ↓reduceIte]
+        rw [and_skip_iff]
+        simp [List.mem_filter, and_assoc]
+
+/-- MULTI_MERGE and an unfired DISCRIMINATOR: SKIP ⇔ there are upstreams and all are halted -/
+theorem skip_iff_multi_merge (i : In) (hb : i.bypass = false) (hj : i.join = .multiMerge) :
+    (evaluate i).phase = .skip ↔ i.ups ≠ [] ∧ ∀ u ∈ i.ups, u.status.isHalt = true := by
+  unfold evaluate
+  by_cases he : i.ups.isEmpty = true
+  · simp only [hb, he, Bool.false_eq_true, ↓reduceIte]
+    rw [List.isEmpty_iff] at he; simp [he]
+  · simp only [hb, he, hj, Bool.false_eq_true, ↓reduceIte]
+    have hne : i.ups ≠ [] := by simpa using he
+    rw [mm_skip_iff]
+    constructor
+    · rintro ⟨_, h⟩; exact ⟨hne, h⟩
+    · rintro ⟨_, h⟩; exact ⟨fun u hu => halt_not_cont _ (h u hu), h⟩
+
+theorem skip_iff_discriminator (i : In) (hb : i.bypass = false) (hj : i.join = .discriminator) :
+    (evaluate i).phase = .skip ↔
+      i.ups ≠ [] ∧ i.joinFired = false ∧ ∀ u ∈ i.ups, u.status.isHalt = true := by
+  unfold evaluate
+  by_cases he : i.ups.isEmpty = true
+  · simp only [hb, he, Bool.false_eq_true, ↓reduceIte]
+    rw [List.isEmpty_iff] at he; simp [he]
+  · simp only [hb, he, hj, Bool.false_eq_true, ↓reduceIte]
+    have hne : i.ups ≠ [] := by simpa using he
+    unfold discriminator
+    cases hf : i.joinFired
+    · simp only [Bool.false_eq_true, ↓reduceIte]
+      rw [mm_skip_iff]
+      constructor
+      · rintro ⟨_, h⟩; exact ⟨hne, by simp, h⟩
+      · rintro ⟨_, _, h⟩; exact ⟨fun u hu => halt_not_cont _ (h u hu), h⟩
+    · simp
+
+/-- **N_OF_M, positive threshold: SKIP ⇔ the threshold has become unreachable** — it has not
+    fired and fewer than `threshold` upstreams are still not halted. -/
+theorem skip_iff_n_of_m (i : In) (hb : i.bypass = false) (hj : i.join = .nOfM)
+    (ht : 0 < i.threshold) :
+    (evaluate i).phase = .skip ↔
+      i.ups ≠ [] ∧ i.joinFired = false ∧ (nLive i.ups : Int) < i.threshold := by
+  unfold evaluate
+  by_cases he : i.ups.isEmpty = true
+  · simp only [hb, he, Bool.false_eq_true, ↓reduceIte]
+    rw [List.isEmpty_iff] at he; simp [he]
+  · simp only [hb, he, hj, Bool.false_eq_true, ↓reduceIte]
+    have hne : i.ups ≠ [] := by simpa using he
+    have ht' : ¬ i.threshold ≤ 0 := by omega
+    have hsplit := count_split i.ups
+    unfold nOfM nLive
+    simp only [ht', ↓reduceIte]
+    cases hf : i.joinFired
+    · simp only [Bool.false_eq_true, ↓reduceIte, ge_iff_le]
+      split
+      · rename_i h1
+        simp only [reduceCtorEq, hne, ne_eq, not_false_eq_true, true_and, false_iff]
+        omega
+      · split
+        · rename_i h1 h2
+          simp only [hne, ne_eq, not_false_eq_true, true_and, true_iff]
+          rw [← hsplit]; exact h2
+        · rename_i h1 h2
+          have : ¬ ((nLive i.ups : Int) < i.threshold) := by
+            unfold nLive; rw [← hsplit]; exact h2
+          unfold nLive at this
+          split <;> simp [this]
+    · simp
+
+/-! ## totality and the reported id lists -/
+
+/-- the result is one of three phases (the model, like the code, never answers UNDEFINED),
+    and NOT_READY is exactly "neither READY nor SKIP" -/
+theorem phase_total (i : In) :
+    ((evaluate i).phase = .ready ∨ (evaluate i).phase = .notReady ∨ (evaluate i).phase = .skip)
+    ∧ ((evaluate i).phase = .notReady ↔
+        ¬ (evaluate i).phase = .ready ∧ ¬ (evaluate i).phase = .skip) := by
+  cases (evaluate i).phase <;> simp
+
+/-- AND join: NOT_READY ⇔ nothing halted and something not yet continuable -/
+theorem not_ready_iff_and (i : In) (hb : i.bypass = false) (hj : i.join = .and) :
+    (evaluate i).phase = .notReady ↔
+      (∀ u ∈ i.ups, u.status.isHalt = false) ∧ ∃ u ∈ i.ups, u.status.isContinuable = false := by
+  rw [(phase_total i).2, ready_iff_and i hb hj, skip_iff_and i hb hj]
+  constructor
+  · rintro ⟨h1, h2⟩
+    refine ⟨fun u hu => ?_, ?_⟩
+    · cases hh : u.status.isHalt with
+      | false => rfl
+      | true => exact absurd ⟨u, hu, hh⟩ h2
+    · exact Classical.byContradiction fun hne => h1 fun u hu => by
+        cases hc : u.status.isContinuable with
+        | true => rfl
+        | false => exact absurd ⟨u, hu, hc⟩ hne
+  · rintro ⟨hh, u, hu, hc⟩
+    refine ⟨fun hall => ?_, fun ⟨v, hv, hhv⟩ => ?_⟩
+    · rw [hall u hu] at hc; cases hc
+    · rw [hh v hv] at hhv; cases hhv
+
+/-- private: the three sub-evaluators' id lists -/
+theorem mm_ids (ups : List Up) :
+    (∀ r ∈ (multiMerge ups).failed, ∃ u ∈ ups, u.ref = r ∧ u.status.isHalt = true) ∧
+    (∀ r ∈ (multiMerge ups).active, ∃ u ∈ ups, u.ref = r ∧ u.status.isContinuable = false) := by
+  unfold multiMerge
+  by_cases h : ups.any (·.status.isContinuable) = true
+  · simp [h]
+  · simp only [h, Bool.false_eq_true, ↓reduceIte]
+    have hc : ∀ u ∈ ups, u.status.isContinuable = false := by simpa using h
+    by_cases ha : ups.all (·.status.isHalt) = true
+    · simp only [ha, ↓reduceIte, List.mem_map, List.not_mem_nil, false_imp_iff, implies_true, and_true]
+      have hh : ∀ u ∈ ups, u.status.isHalt = true := by simpa using ha
+      rintro r ⟨u, hu, rfl⟩; exact ⟨u, hu, rfl, hh u hu⟩
+    · simp only [ha, Bool.false_eq_true, ↓reduceIte, List.mem_map, List.not_mem_nil, false_imp_iff,
+        implies_true, true_and]
+      rintro r ⟨u, hu, rfl⟩; exact ⟨u, hu, rfl, hc u hu⟩
+
+/-- **`active_ids_subset`**: every reported `failed_upstream_id` is the ref of a halted upstream
+    and is only reported with SKIP; every reported `active_upstream_id` is the ref of an upstream
+    that is not continuable and is only reported with NOT_READY.  (For MULTI_MERGE /
+    DISCRIMINATOR the "active" list is simply all upstreams, so it may name halted ones — that is
+    what the code does; for AND / OR / N_OF_M active ids are additionally not halted:
+    `active_ids_not_halted`.) -/
+theorem active_ids_subset (i : In) :
+    (∀ r ∈ (evaluate i).failed, (evaluate i).phase = .skip ∧
+        ∃ u ∈ i.ups, u.ref = r ∧ u.status.isHalt = true) ∧
+    (∀ r ∈ (evaluate i).active, (evaluate i).phase = .notReady ∧
+        ∃ u ∈ i.ups, u.ref = r ∧ u.status.isContinuable = false) := by
+  -- facts about the four sub-evaluators
+  have hand : ∀ ups : List Up,
+      (∀ r ∈ (andJoin ups).failed, (andJoin ups).phase = .skip ∧
+          ∃ u ∈ ups, u.ref = r ∧ u.status.isHalt = true) ∧
+      (∀ r ∈ (andJoin ups).active, (andJoin ups).phase = .notReady ∧
+          ∃ u ∈ ups, u.ref = r ∧ u.status.isContinuable = false) := by
+    intro ups
+    constructor
+    · intro r hr
+      rw [and_failed] at hr
+      obtain ⟨u, hu, rfl⟩ := List.mem_map.mp hr
+      obtain ⟨hu, hh⟩ := List.mem_filter.mp hu
+      exact ⟨(and_skip_iff ups).mpr ⟨u, hu, hh⟩, u, hu, rfl, hh⟩
+    · intro r hr
+      obtain ⟨u, hu, hr', hc, hh⟩ := and_active_mem ups r hr
+      exact ⟨and_active_phase ups r hr, u, hu, hr', hc⟩
+  have hmm : ∀ ups : List Up,
+      (∀ r ∈ (multiMerge ups).failed, (multiMerge ups).phase = .skip ∧
+          ∃ u ∈ ups, u.ref = r ∧ u.status.isHalt = true) ∧
+      (∀ r ∈ (multiMerge ups).active, (multiMerge ups).phase = .notReady ∧
+          ∃ u ∈ ups, u.ref = r ∧ u.status.isContinuable = false) := by
+    intro ups
+    refine ⟨fun r hr => ⟨?_, (mm_ids ups).1 r hr⟩, fun r hr => ⟨?_, (mm_ids ups).2 r hr⟩⟩
+    · unfold multiMerge at hr ⊢
+      split at hr
+      · simp at hr
+      · split at hr
+        · rename_i h1 h2; simp [h1, h2]
+        · simp at hr
+    · unfold multiMerge at hr ⊢
+      split at hr
+      · simp at hr
+      · split at hr
+        · simp at hr
+        · rename_i h1 h2; simp [h1, h2]
+  unfold evaluate
+  split
+  · simp
+  · split
+    · simp
+    · cases i.join with
+      | and => exact hand _
+      | multiMerge => exact hmm _
+      | discriminator =>
+        simp only; unfold discriminator
+        split
+        · simp
+        · exact hmm _
+      | or =>
+        simp only; unfold orJoin
+        cases i.activated with
+        | none => exact hand _
+        | some act =>
+          simp only
+          split
+          · simp
+          · have := hand (i.ups.filter (fun u => act.contains u.ref))
+            refine ⟨fun r hr => ?_, fun r hr => ?_⟩
+            · obtain ⟨h1, u, hu, h2⟩ := this.1 r hr
+              exact ⟨h1, u, (List.mem_filter.mp hu).1, h2⟩
+            · obtain ⟨h1, u, hu, h2⟩ := this.2 r hr
+              exact ⟨h1, u, (List.mem_filter.mp hu).1, h2⟩
+      | nOfM =>
+        simp only; rw [nOfM_eq]
+        split
+        · exact hand _
+        · split
+          · simp
+          · split
+            · simp
+            · split
+              · simp only [List.mem_map, List.mem_filter, Bool.and_eq_true, Bool.not_eq_eq_eq_not,
+                  Bool.not_true, List.not_mem_nil, false_imp_iff, implies_true, and_true, true_and]
+                rintro r ⟨u, ⟨hu, _, hh⟩, rfl⟩; exact ⟨u, hu, rfl, hh⟩
+              · split
+                · simp only [List.not_mem_nil, false_imp_iff, implies_true, List.mem_map,
+                    List.mem_filter, Bool.and_eq_true, Bool.not_eq_eq_eq_not, Bool.not_true, true_and]
+                  rintro r ⟨u, ⟨hu, hc, _⟩, rfl⟩; exact ⟨u, hu, rfl, hc⟩
+                · simp
+
+/-! ## monotonicity / congruence facts for the engine proof -/
+
+/-- **The phase depends only on (ref, continuable?, halted?) of each upstream.**  Rewriting the
+    upstream rows by any `f` that keeps refs and both classifications leaves the phase unchanged,
+    for every join type — e.g. a continuable upstream changing to another continuable status
+    (REDIRECT → SUCCEEDED), or RUNNING → SUSPENDED. -/
+theorem phase_congr (i : In) (f : Up → Up)
+    (hr : ∀ u, (f u).ref = u.ref)
+    (hc : ∀ u, (f u).status.isContinuable = u.status.isContinuable)
+    (hh : ∀ u, (f u).status.isHalt = u.status.isHalt) :
+    (evaluate { i with ups := i.ups.map f }).phase = (evaluate i).phase := by
+  have hfilt : ∀ (p : Up → Bool), (∀ u, p (f u) = p u) → ∀ l : List Up,
+      (l.map f).filter p = (l.filter p).map f := by
+    intro p hp l
+    induction l with
+    | nil => rfl
+    | cons a t ih => simp [List.filter_cons, hp a, ih]; split <;> simp
+  have handp : ∀ l : List Up, (andJoin (l.map f)).phase = (andJoin l).phase := by
+    intro l
+    cases hph : (andJoin l).phase
+    · rw [and_ready_iff] at hph ⊢; intro u hu
+      obtain ⟨v, hv, rfl⟩ := List.mem_map.mp hu; rw [hc]; exact hph v hv
+    · have h1 : ¬ (andJoin l).phase = .ready := by simp [hph]
+      have h2 : ¬ (andJoin l).phase = .skip := by simp [hph]
+      rw [and_ready_iff] at h1; rw [and_skip_iff] at h2
+      have h1' : ¬ (andJoin (l.map f)).phase = .ready := by
+        rw [and_ready_iff]; intro hall; apply h1; intro u hu
+        rw [← hc]; exact hall _ (List.mem_map_of_mem hu)
+      have h2' : ¬ (andJoin (l.map f)).phase = .skip := by
+        rw [and_skip_iff]; rintro ⟨u, hu, hhu⟩
+        obtain ⟨v, hv, rfl⟩ := List.mem_map.mp hu; rw [hh] at hhu; exact h2 ⟨v, hv, hhu⟩
+      cases hq : (andJoin (l.map f)).phase <;> simp_all
+    · rw [and_skip_iff] at hph ⊢
+      obtain ⟨u, hu, hhu⟩ := hph
+      exact ⟨f u, List.mem_map_of_mem hu, by rw [hh]; exact hhu⟩
+  have hmmp : ∀ l : List Up, (multiMerge (l.map f)).phase = (multiMerge l).phase := by
+    intro l
+    unfold multiMerge
+    have e1 : (l.map f).any (·.status.isContinuable) = l.any (·.status.isContinuable) := by
+      simp [List.any_map, Function.comp_def, hc]
+    have e2 : (l.map f).all (·.status.isHalt) = l.all (·.status.isHalt) := by
+      simp [List.all_map, Function.comp_def, hh]
+    rw [e1, e2]
+    split
+    · rfl
+    · split <;> rfl
+  unfold evaluate
+  simp only [List.isEmpty_map]
+  split
+  · rfl
+  · split
+    · rfl
+    · cases i.join with
+      | and => exact handp _
+      | multiMerge => exact hmmp _
+      | discriminator =>
+        simp only; unfold discriminator; split
+        · rfl
+        · exact hmmp _
+      | or =>
+        simp only; unfold orJoin
+        cases i.activated with
+        | none => exact handp _
+        | some act =>
+          simp only
+          rw [hfilt (fun u => act.contains u.ref) (fun u => by simp [hr]) i.ups]
+          simp only [List.isEmpty_map]
+          split
+          · rfl
+          · exact handp _
+      | nOfM =>
+        simp only; rw [nOfM_eq, nOfM_eq]
+        split
+        · exact handp _
+        · split
+          · rfl
+          · rw [hfilt (·.status.isContinuable) (fun u => hc u) i.ups,
+              hfilt (fun u => !u.status.isContinuable && !u.status.isHalt)
+                (fun u => by simp [hc, hh]) i.ups]
+            simp only [List.length_map, List.isEmpty_map]
+            split
+            · rfl
+            · split
+              · rfl
+              · split <;> rfl
+
+/-- AND-join READY is stable under replacing the status of one upstream (by ref) with any
+    continuable status: what was READY stays READY. -/
+theorem and_ready_stable (i : In) (hb : i.bypass = false) (hj : i.join = .and) (r : Nat)
+    (s' : Status) (hs : s'.isContinuable = true) (h : (evaluate i).phase = .ready) :
+    (evaluate { i with ups := i.ups.map (fun u => if u.ref = r then { u with status := s' } else u) }).phase
+      = .ready := by
+  rw [ready_iff_and i hb hj] at h
+  refine (ready_iff_and
+    { i with ups := i.ups.map (fun u => if u.ref = r then { u with status := s' } else u) } hb hj).mpr ?_
+  intro u hu
+  obtain ⟨v, hv, rfl⟩ := List.mem_map.mp hu
+  by_cases hvr : v.ref = r
+  · simp [hvr, hs]
+  · simp [hvr, h v hv]
+
+/-- READY is monotone in upstream progress for every join type that has not fired: turning a
+    non-continuable upstream continuable never destroys READY.  Stated for the list-map form:
+    if `f` keeps refs and only ever turns statuses continuable (`cont u → cont (f u)`), READY is
+    preserved. -/
+theorem ready_mono (i : In) (f : Up → Up)
+    (hr : ∀ u, (f u).ref = u.ref)
+    (hc : ∀ u, u.status.isContinuable = true → (f u).status.isContinuable = true)
+    (h : (evaluate i).phase = .ready) :
+    (evaluate { i with ups := i.ups.map f }).phase = .ready := by
+  rw [ready_iff_join_met] at h ⊢
+  have hcount : ∀ l : List Up, nCont l ≤ nCont (l.map f) := by
+    intro l
+    unfold nCont
+    induction l with
+    | nil => simp
+    | cons a t ih =>
+      simp only [List.map_cons, List.filter_cons]
+      cases ha : a.status.isContinuable
+      · simp only [Bool.false_eq_true, ↓reduceIte]; split <;> (try simp only [List.length_cons]) <;> omega
+      · simp only [hc a ha, ↓reduceIte, List.length_cons]; omega
+  have hall : (∀ u ∈ i.ups, u.status.isContinuable = true) →
+      ∀ u ∈ i.ups.map f, u.status.isContinuable = true := by
+    intro hall u hu
+    obtain ⟨v, hv, rfl⟩ := List.mem_map.mp hu; exact hc v (hall v hv)
+  have hex : (∃ u ∈ i.ups, u.status.isContinuable = true) →
+      ∃ u ∈ i.ups.map f, u.status.isContinuable = true := by
+    rintro ⟨u, hu, hcu⟩; exact ⟨f u, List.mem_map_of_mem hu, hc u hcu⟩
+  unfold JoinMet at h ⊢
+  rcases h with h | h | ⟨hj, h⟩ | ⟨hj, ht, hf, h⟩ | ⟨hj, hf, h⟩ | ⟨hj, act, ha, h⟩ | ⟨hj, h⟩
+  · exact Or.inl h
+  · right; left; simp only [h, List.map_nil]
+  · right; right; left; exact ⟨hj, hall h⟩
+  · right; right; right; left
+    refine ⟨hj, ht, hf, ?_⟩
+    have := hcount i.ups
+    simp only; omega
+  · right; right; right; right; left; exact ⟨hj, hf, hex h⟩
+  · right; right; right; right; right; left
+    refine ⟨hj, act, ha, ?_⟩
+    intro u hu hm
+    obtain ⟨v, hv, rfl⟩ := List.mem_map.mp hu
+    rw [hr] at hm; exact hc v (h v hv hm)
+  · right; right; right; right; right; right; exact ⟨hj, hex h⟩
+
+/-! ## non-vacuity: concrete inputs exercising each hypothesis / each branch -/
+
+private def u (r : Nat) (s : Status) : Up := { ref := r, status := s }
+private def mk (j : JoinType) (th : Int) (fired : Bool) (act : Option (List Nat)) (ups : List Up) : In :=
+  { join := j, threshold := th, joinFired := fired, activated := act, bypass := false, ups := ups }
+
+-- AND: ready / skip (STOPPED halts) / not ready
+example : (evaluate (mk .and 0 false none [u 0 .succeeded, u 1 .redirect])).phase = .ready := by decide
+example : evaluate (mk .and 0 false none [u 0 .succeeded, u 1 .stopped]) = { phase := .skip, failed := [1] } := by decide
+example : evaluate (mk .and 0 false none [u 0 .succeeded, u 1 .running]) = { phase := .notReady, active := [1] } := by decide
+-- bypass overrides a halted upstream
+example : (evaluate { mk .and 0 false none [u 0 .terminal] with bypass := true }).phase = .ready := by decide
+-- N_OF_M: exactly at the threshold is READY; one short is not; unreachable is SKIP; fired blocks
+example : (evaluate (mk .nOfM 2 false none [u 0 .succeeded, u 1 .skipped, u 2 .running])).phase = .ready := by decide
+example : (evaluate (mk .nOfM 2 false none [u 0 .succeeded, u 1 .running, u 2 .terminal])).phase = .notReady := by decide
+example : evaluate (mk .nOfM 2 false none [u 0 .succeeded, u 1 .canceled, u 2 .terminal]) = { phase := .skip, failed := [1, 2] } := by decide
+example : (evaluate (mk .nOfM 2 true none [u 0 .succeeded, u 1 .succeeded])).phase = .notReady := by decide
+example : (evaluate (mk .nOfM 0 true none [u 0 .succeeded, u 1 .succeeded])).phase = .ready := by decide
+-- DISCRIMINATOR
+example : (evaluate (mk .discriminator 0 false none [u 0 .running, u 1 .succeeded])).phase = .ready := by decide
+example : (evaluate (mk .discriminator 0 true none [u 0 .running, u 1 .succeeded])).phase = .notReady := by decide
+-- OR: activation info restricts the wait set; an unlisted halted upstream does not matter
+example : (evaluate (mk .or 0 false (some [0]) [u 0 .succeeded, u 1 .terminal])).phase = .ready := by decide
+example : (evaluate (mk .or 0 false (some []) [u 0 .running, u 1 .terminal])).phase = .ready := by decide
+example : (evaluate (mk .or 0 false none [u 0 .succeeded, u 1 .terminal])).phase = .skip := by decide
+example : (evaluate (mk .or 0 false (some [0, 1]) [u 0 .succeeded, u 1 .running])).phase = .notReady := by decide
+-- MULTI_MERGE: "active" ids may name a halted upstream (what the code does)
+example : evaluate (mk .multiMerge 0 false none [u 0 .terminal, u 1 .running]) = { phase := .notReady, active := [0, 1] } := by decide
+-- hypotheses of `halted_upstream_blocks_and`, `fired_blocks`, `and_ready_stable` are satisfiable
+example : ∃ i : In, i.bypass = false ∧ i.join = .and ∧ ∃ x ∈ i.ups, x.status.isHalt = true :=
+  ⟨mk .and 0 false none [u 0 .succeeded, u 1 .stopped], rfl, rfl, u 1 .stopped, by decide, rfl⟩
+example : ∃ i : In, i.bypass = false ∧ i.ups ≠ [] ∧ (i.join = .nOfM ∧ 0 < i.threshold) ∧ i.joinFired = true :=
+  ⟨mk .nOfM 1 true none [u 0 .succeeded], rfl, by decide, ⟨rfl, by decide⟩, rfl⟩
+example : JoinMet (mk .nOfM 2 false none [u 0 .succeeded, u 1 .skipped, u 2 .running]) :=
+  ready_sound _ (by decide)
+
 end Stab.Props.C03
